@@ -7,7 +7,8 @@
 // (Natural op Natural -> Natural, anything with Integer -> Integer, anything with Real -> Real).
 // Defines: OPER (QOperation code), LK / RK (1 Real, 2 Natural, 3 Integer; undefined = symbolic kind),
 //          (LK / RK may also be 16 + bitmask of kinds: 28 = Natural or Integer)
-//          KF_EXCL_* / KF_ONLY_* known findings, PB / PE_MAX (power: base bits / largest exponent)
+//          KF_EXCL_* / KF_ONLY_* known findings (C04-rem-zero, C04-rem-overflow, C04-natural-rem, C04-natural-cmp,
+//          C04-pow-neg-even-sign, C04-pow-fraction-trunc), PB / PE (power: base bits / the concrete exponent), REM_WIDE, NT, SKL / SKR
 #include "sym_value.hpp"
 #include "fixed_stream.hpp"
 #include "Template.hpp"
